@@ -1,5 +1,5 @@
 (* C09 — property theorems for the code as it is after fixes 1f61a03, 4ce6577 and 3c40407 (statements only; proofs in Proofs_*.v). *)
-From Sdns Require Import Common.Base Gen.C09 C09.Model C09.Proofs_Maps C09.Proofs_Rev C09.Proofs_Step C09.Proofs_Refute C09.Proofs_Prov C09.Proofs_Thm C09.Proofs_Hist C09.Proofs_Live C09.Proofs_Wf C09.Proofs_Inv C09.Proofs_KeyTag C09.Proofs_Gen C09.Proofs_Root.
+From Sdns Require Import Common.Base Gen.C09 C09.Model C09.Proofs_Maps C09.Proofs_Rev C09.Proofs_Step C09.Proofs_Refute C09.Proofs_Prov C09.Proofs_Thm C09.Proofs_Hist C09.Proofs_Live C09.Proofs_Wf C09.Proofs_Inv C09.Proofs_KeyTag C09.Proofs_Gen C09.Proofs_Root C09.ModelFs C09.Proofs_Fs C09.Proofs_Stay.
 Open Scope N_scope.
 
 (* A DNSKEY response carrying no valid signature made with the key material of a
@@ -295,6 +295,28 @@ Theorem fail_closed_validates_nothing :
 Proof. exact fail_closed_validates_nothing_lemma. Qed.
 Print Assumptions fail_closed_validates_nothing.
 
+(* ... and every other validating (CD=0) query — NXDOMAIN and NODATA answers through authority(), referrals through
+   validateDelegation() — is refused at its hasTrustAnchors gate before anything the authority said is looked at
+   (gate: Model.v; tied by the CGate cases: Resolver.Resolve against the scripted root under an empty trust set). *)
+Theorem fail_closed_refuses_every_validating_query :
+  forall (tag : key -> N) live cfg d now fe fl,
+    (f_tread fl <> TROk \/ f_sread fl = true) \/
+    (f_twrite fl = true /\ f_swrite fl = true /\ r_revoked (autota tag live cfg d now fe fl) <> []) ->
+    gate (r_live (autota tag live cfg d now fe fl)) = Some RUnavailable /\
+    has_trust_anchors (r_live (autota tag live cfg d now fe fl)) = false.
+Proof. exact fail_closed_refuses_every_query_lemma. Qed.
+Print Assumptions fail_closed_refuses_every_validating_query.
+
+(* Translator tie: Resolver.hasTrustAnchors — the test behind all three gates and behind AutoTA's priorTrustValid —
+   translated from the source (dns.RR as a sum type, the RWMutex calls as no-ops) IS the model's has_trust_anchors
+   on the live set, however a record is read as a key.  Editing the function in /repo changes Gen/C09.v and
+   re-checks this. *)
+Theorem hasTrustAnchors_is_model :
+  forall (abs : I_RR -> key) (r : T_Resolver),
+    go_Resolver_hasTrustAnchors r = has_trust_anchors (map abs (T_Resolver_rootKeys r)).
+Proof. exact gen_hasTrustAnchors. Qed.
+Print Assumptions hasTrustAnchors_is_model.
+
 (* "A key whose self-signed revocation was accepted is never published as a trust anchor again", seen from the
    validating query: premises as revocation_never_again; after EVERY later history of runs, crashes and restarts,
    a root DNSKEY RRset is accepted / answered as authenticated data only if some valid signature on it was made
@@ -311,3 +333,86 @@ Theorem revoked_key_never_validates_again :
       exists sg, In sg sigs /\ s_ok sg = true /\ s_mat sg <> m.
 Proof. exact revoked_key_never_validates_again_lemma. Qed.
 Print Assumptions revoked_key_never_validates_again.
+
+(* ------------------------------------------------ wave 7: the persistence steps at file-system granularity *)
+
+(* atomicGobWrite (ModelFs.v write_ops: CreateTemp, Encode, Sync, Close, Rename, SyncDir, with the close-and-remove
+   error paths), for every content, every point of failure and every crash point n: the named file reads as the old
+   or as the complete new content — new only when the call does not fail and the rename (the 5th operation) ran —
+   and a completed call, successful or not, leaves no temp file behind. *)
+Theorem atomic_write_old_or_new :
+  forall (w : wfile) (fp : failpoint) (dir : fsdir) (n : nat),
+    let dir' := fs_run dir (firstn n (write_ops w fp)) in
+    ((fd_disk dir' = fd_disk dir /\ (fp = NoFail -> (n <= 4)%nat)) \/
+     (fd_disk dir' = apply_write (fd_disk dir) w /\ fp = NoFail /\ (5 <= n)%nat)) /\
+    fd_tmps (fs_run dir (write_ops w fp)) = fd_tmps dir.
+Proof. exact atomic_write_full. Qed.
+Print Assumptions atomic_write_old_or_new.
+
+(* "crashes after any prefix of the persistence steps of a refresh": the process dies after the first n file-system
+   operations of an AutoTA run (any n, any state, response, clock, read faults, and any point of failure of either
+   write consistent with the run's write faults; junk = temp files already lying in the directory) and restarts with
+   any configuration.  What the restart finds is EXACTLY the state the rename-prefix crash event of the model
+   describes (ECrash k, k = the renames among those n operations): every theorem above that quantifies over
+   histories with ECrash events covers a crash between any two file-system operations.  And a run that is not cut
+   short ends on the disk its result names, with no temp file added. *)
+Theorem crash_anywhere_is_crash_between_renames :
+  forall (tag : key -> N) (s : sys) junk now fe fl fpt fps n cfg' tr sr,
+    consistent fl fpt fps ->
+    let ops := autota_ops tag (s_live s) (s_cfg s) (s_disk s) now fe fl fpt fps in
+    fst (crash_at tag s junk now fe fl fpt fps n cfg' tr sr) =
+      step tag s (ECrash now fe fl (length (renames (firstn n ops))) cfg' tr sr) /\
+    (renames (firstn n ops) = [] ->
+       fst (crash_at tag s junk now fe fl fpt fps n cfg' tr sr) = step tag s (ERestart cfg' tr sr)) /\
+    fs_run (mk_fsdir (s_disk s) junk) ops = mk_fsdir (r_disk (run_of tag s now fe fl)) junk.
+Proof. exact crash_anywhere_full. Qed.
+Print Assumptions crash_anywhere_is_crash_between_renames.
+
+(* "... never published as a trust anchor again — not after restarts, a crash at any point between the state-file
+   writes ...": the run accepted the revocation of m and the process died after ANY number of its file-system
+   operations, at least one rename among them; then no key of material m is live after the restart, nor after any
+   later history of runs, crashes and restarts. *)
+Theorem revocation_never_again_at_any_crash_point :
+  forall (tag : key -> N) (m : N) (s : sys) junk now fe fl fpt fps n cfg' tr sr,
+    consistent fl fpt fps ->
+    In m (r_revoked (run_of tag s now fe fl)) ->
+    renames (firstn n (autota_ops tag (s_live s) (s_cfg s) (s_disk s) now fe fl fpt fps)) <> [] ->
+    forall h key, In key (s_live (exec tag (fst (crash_at tag s junk now fe fl fpt fps n cfg' tr sr)) h)) -> k_mat key <> m.
+Proof. exact revocation_never_again_at_any_crash_point_lemma. Qed.
+Print Assumptions revocation_never_again_at_any_crash_point.
+
+(* ------------------------------------------------ wave 7: "stays trusted for 90 days", over histories *)
+
+(* "a key that merely disappears stays trusted for 90 days and returns to valid if it reappears" — for every key-tag
+   function and every history of refreshes, crashes after any prefix of the file replacements, and restarts.
+   good s: the state file lists K (not REVOKE-flagged) as a Valid or Missing anchor under its tag, nothing on disk
+   records K's material as revoked, the configuration does not list it with the REVOKE bit, and K is live.
+   hist_ok: along the history, every refresh reads its two files, at least one of its two writes works, its
+   response — whoever signed it, whatever else it lists, authenticated fully, by revoked keys only, or not at all,
+   or no response — carries no REVOKE-flagged form of K's material, and whenever the state file has K as Missing
+   and the response omits it the Missing stamp is at most 2160 h old; every restart reads its files and lists K in
+   a configuration without a REVOKE-flagged form of it.  Then K is in the live trust set after EVERY event and is
+   still recorded as a Valid / Missing anchor (good is an invariant).  The one-run rules say which of the two:
+   missing_90d (back to Valid when it reappears), missing_expires (dropped after 2160 h of absence). *)
+Theorem anchor_stays_trusted :
+  forall (tag : key -> N) (K : key), is_rev K = false ->
+  forall (h : list event) (s : sys), good tag K s -> hist_ok tag K s h -> good tag K (exec tag s h).
+Proof. exact anchor_stays_trusted_lemma. Qed.
+Print Assumptions anchor_stays_trusted.
+
+(* ... and from the very first start on a fresh directory (no state file: the first refresh seeds its table from the
+   live set).  K is a live KSK without the REVOKE bit, the only live KSK with its key tag, no live or configured KSK
+   of its material carries the REVOKE bit, the tombstone file (if any) does not hold its material; the refresh reads
+   its files, one of its writes works, its response (if any) carries no REVOKE-flagged form of K's material.  Then
+   K is live after it, and if that refresh wrote the state file the state is `good` — from where
+   anchor_stays_trusted carries on.  (Until a refresh writes the state file nothing further is claimed.) *)
+Theorem first_refresh_anchors :
+  forall (tag : key -> N) (K : key) (s : sys) now fe fl,
+    fresh tag K (s_live s) (s_disk s) -> cfg_ok K (s_cfg s) ->
+    f_sread fl = false -> f_tread fl = TROk -> (f_twrite fl = false \/ f_swrite fl = false) ->
+    match fe with FErr => True | FResp keys sigs => no_revoked_form K keys end ->
+    let s' := step tag s (ERun now fe fl) in
+    In K (s_live s') /\
+    ((exists s5, In (WState s5) (r_writes (run_of tag s now fe fl))) -> good tag K s').
+Proof. exact first_refresh_anchors_lemma. Qed.
+Print Assumptions first_refresh_anchors.
